@@ -181,5 +181,20 @@ def check(tier, seed):
 
 
 def replay(rec):
-    print(rec['what'])
-    return 1
+    print(rec['key'], '|', rec['what'])
+    boot.load_parsing()
+    st = core.Stats()
+    if rec.get('engine') == 'c17':
+        ncat = rec['ncat']
+        sents = sentences()
+        docs_all = [(s,) for s in sents] + list(itertools.product(sents, repeat=2))
+        di = [k for k, d in enumerate(docs_all) if [list(x) for x in d] == rec['doc']][0]
+        st = shard_fn((ncat, di, di + 1))
+        hits = {k: v for k, v in st.viol.items() if any(r['dictionary'] == rec['dictionary'] and r['form'] == rec['form'] for r in v)}
+        for k, v in (hits or st.viol).items():
+            print('REPRODUCED', k, v[0]['what'])
+        return 1 if st.viol else 0
+    data_part(st)
+    for k, v in st.viol.items():
+        print('REPRODUCED', k, v[0]['what'])
+    return 1 if st.viol else 0
